@@ -589,7 +589,13 @@ class Gen:
             bg = BodyGen(r, self, unit, f.name, f.tparams, f.params, f.ret, earlier, helper, counter)
             body = bg.body(r.randint(1, 4) if nst is None else nst, recursion)
             if body is not None:
-                f.body = body
+                # state and helpers of the declaring module are used on purpose (so that a wrong scope is observable)
+                pre = []
+                if counter is not None and r.random() < 0.7:
+                    pre.append(('assign', var(counter), ('bin', 'plus', var(counter), lit(ZAHL, '1'))))
+                if helper is not None and r.random() < 0.6:
+                    pre.append(('show', ('call', helper.name, [lit(ZAHL, r.choice(['1', '5', '9']))])))
+                f.body = pre + body
                 unit.flags[f.name] = bg.flags
                 return True
         return False
@@ -713,6 +719,12 @@ class Gen:
     def _drivers_counter(self, u, counter):
         if counter is not None:
             u.sites['D'].append([('show', var(counter))])
+            if self.layout.kind != 'hidden':
+                # read the declaring module's state once more after all call sites of main
+                acc = FuncDef('stand_u%d' % u.uid, [], ZAHL, '{W}', [('ret', var(counter))], public=(self.layout.mods['D'] != 'main'))
+                u.helpers['D'].append(acc)
+                u.funcs.append(acc)
+                u.sites['M'].append([('show', ('call', acc.name, []))])
 
     def unit_plain(self, r, u, pos):
         """1..3 generic functions, later ones may call earlier ones; call sites in every module"""
@@ -980,7 +992,7 @@ class Gen:
         elif kinds == 'two':
             mods = [Module('decl', 'D'), Module('main', 'M', ['decl'])]
         elif kinds == 'three':
-            mods = [Module('decl', 'D'), Module('mitte', 'I', ['decl']), Module('main', 'M', ['mitte', 'decl'])]
+            mods = [Module('decl', 'D'), Module('mitte', 'I', ['decl']), Module('main', 'M', ['decl', 'mitte'])]
         else:
             mods = [Module('decl', 'D'), Module('mitte', 'I', ['decl']), Module('main', 'M', ['mitte'])]
         pr.modules = mods
